@@ -1,0 +1,10 @@
+//go:build !verif
+
+package manager
+
+// Hooks for the verification harness (build tag "verif"); without the tag
+// they are empty and inlined away.
+
+func verifJobBegin(kind string) {}
+func verifJobGate(kind string)  {}
+func verifJobEnd(kind string)   {}
